@@ -62,6 +62,7 @@ var guardTable = []guardRow{
 	{"fixtures/fx.guarded", "fixtures/fx.guarded.mu", []string{"inner"}, true, false},
 	{"fixtures/fx.rwGuarded", "fixtures/fx.rwGuarded.mu", []string{"v", "items"}, false, false},
 	{"fixtures/fx.GoodB", "fixtures/fx.GoodB.mu", []string{"keep"}, false, false},
+	{"fixtures/fx.GoodE1", "fixtures/fx.GoodE1.mu", []string{"log", "recent", "next"}, false, false},
 	{"fixtures/fx.BadBShallow", "fixtures/fx.BadBShallow.mu", []string{"keep"}, false, false},
 	{"fixtures/fx.rmw", "fixtures/fx.rmw.mu", []string{"total"}, false, false},
 	{"fixtures/fx.rmw", "fixtures/fx.rmw.mu", []string{"stats"}, true, false},
